@@ -418,6 +418,19 @@ func buildC15(tier string) *core.Plan {
 		map[string]any{"quota": 3000000000, "sizes": []any{1, 4294967297}, "f": 0.1, "max": math.MaxInt64, "items": []any{map[string]any{"id": 5000000000}, map[string]any{"id": 1}}},
 	)
 	neigh := [][2]any{{9007199254740992, 9007199254740993}, {9007199254740993, 9007199254740992}, {math.MaxInt64, math.MaxInt64 - 1}, {math.MinInt64, math.MinInt64 + 1}, {0.1, 0.10000000000000002}, {1e21, 1.0000000000000001e21}, {0, -1}}
+	// (map-rooted documents only: list roots are outside the property's domain)
+	rootKinds := []any{map[string]any{"a": 1}, map[string]any{}, map[string]any{"a": []any{1}}, map[string]any{"a": []any{}}, map[string]any{"a": map[string]any{"b": 1}}, map[string]any{"a": map[string]any{}}, map[string]any{"a": "s"},
+		map[string]any{"a": []any{1}, "b": map[string]any{"c": 1}}, map[string]any{"a": map[string]any{"c": 1}, "b": []any{1}}}
+	nrk := int64(len(rootKinds))
+	rootSpace := core.Space{Name: "root-and-top-level-kind-changes", N: nrk * nrk,
+		Desc: func(i int64) any { return map[string]any{"base": rootKinds[i/nrk], "target": rootKinds[i%nrk]} },
+		Run: func(c *core.Ctx, i int64) {
+			base, target := rootKinds[i/nrk], rootKinds[i%nrk]
+			c15Pair(c, base, target)
+			c15CLI(c, base, target, "toml", "yaml", "json")
+			c15CLI(c, base, target, "yaml", "json", "yaml")
+			c15CLI(c, base, target, "json", "toml", "toml")
+		}}
 	neighSpace := core.Space{Name: "neighbouring-numbers", N: int64(len(neigh)),
 		Desc: func(i int64) any { return neigh[i] },
 		Run: func(c *core.Ctx, i int64) {
@@ -436,7 +449,7 @@ func buildC15(tier string) *core.Plan {
 			c15CLI(c, numBase, numTargets[i/27], fm[i%3], fm[(i/3)%3], fm[(i/9)%3])
 		}}
 	return &core.Plan{
-		Spaces: []core.Space{pairs, listPairs, cli, refSpace, numSpace, kindSpace, dollarSpace, inheritSpace, neighSpace},
+		Spaces: []core.Space{pairs, listPairs, cli, refSpace, numSpace, kindSpace, dollarSpace, inheritSpace, neighSpace, rootSpace},
 		Rule:   "every ordered pair (base, target) of map-rooted, null-free, $-free trees up to N nodes over keys {a,b,l} and scalars {1,2,x}; every pair of lists of <=2 (thorough 3) entries drawn from scalars, sub-lists and maps where one is a subset of another; CLI round trips in format mixes; non-trivial = base differs from target",
 		Assumptions: []string{"in-process runs use cmd/bkld/diff.go copied from /repo's working tree at build time (package clause rewritten, fatal() panics), driven exactly like cmd/bkld/main.go; the CLI space runs the real binaries",
 			"the emitted layer is applied as a second input (`bkl base layer`), where its $match: {} selects the base document"},
